@@ -161,7 +161,7 @@ CHECKS = {
         "budget_s": {"quick": 240, "thorough": 2400},
         "hard_timeout_s": {"quick": 900, "thorough": 3600},
         "meta": {
-            "rule": "real source machine + real rpc.Server + real rpc.Client/NetworkMachine over an in-memory network (vnet: the instrumenter rewrites `import \"net\"` of pkg/rpc), each execution in its own testing/synctest bubble (fake time). Part 1 (SEQ): every event history of depth <= 3 (thorough 4) over a 14-letter alphabet (source-side add/remove incl. Multi, Require-rejected and Auto states; add/remove/set issued through the network machine; hold / release of the server->client bytes; cut of the link; 150ms / 5s of time) x 7 (thorough 11) sync configurations (schema / no schema, allow / skip lists, shallow clocks, per-mutation sync, push interval 0 / 1ms / 100ms / 2s), plus a pipe configuration (a local machine piped with pipes.Bind into the network machine, push interval 2s, own alphabet of depth <= 4: piped add / remove, a slow handler keeping the remote machine busy, a client-issued mutation, time) whose oracle adds: piped state active on the remote machine exactly when it is on the pipe source; oracle: result of a client-issued mutation = what the source's tracer saw, effect visible in the mirror when the call returns, and a minute after the last event (bytes released) the client is Ready and the mirror equals the source on every synchronised state (parity for shallow clocks); every verdict is re-run and must reproduce. Part 2 (delay-bounded scheduling): 10 focused cases (two of them from the very start of the connection set-up); every lock acquisition and goroutine start of pkg/rpc, pkg/machine and rpc2 is a delay point keyed by source position + hit number; the default schedule plus every single delayed point x {1us, 60ms} (thorough: also every pair) is executed; same oracle",
+            "rule": "real source machine + real rpc.Server + real rpc.Client/NetworkMachine over an in-memory network (vnet: the instrumenter rewrites `import \"net\"` of pkg/rpc), each execution in its own testing/synctest bubble (fake time). Part 1 (SEQ): every event history of depth <= 3 (thorough 4) over a 14-letter alphabet (source-side add/remove incl. Multi, Require-rejected and Auto states; add/remove/set issued through the network machine; hold / release of the server->client bytes; cut of the link; 150ms / 5s of time) x 7 (thorough 11) sync configurations (schema / no schema, allow / skip lists, shallow clocks, per-mutation sync, push interval 0 / 1ms / 100ms / 2s), plus a pipe configuration (a local machine piped with pipes.Bind into the network machine, push interval 2s, own alphabet of depth <= 4: piped add / remove, a slow handler keeping the remote machine busy, a client-issued mutation, time) whose oracle adds: piped state active on the remote machine exactly when it is on the pipe source; oracle: result of a client-issued mutation = what the source's tracer saw, effect visible in the mirror when the call returns, and a minute after the last event (bytes released) the client is Ready and the mirror equals the source on every synchronised state (parity for shallow clocks); every verdict is re-run and must reproduce. Part 2 (delay-bounded scheduling): 10 focused cases (two of them from the very start of the connection set-up); every lock acquisition and goroutine start of pkg/rpc, pkg/machine and rpc2 is a delay point keyed by source position + hit number; the default schedule plus every single delayed point x {1us, 60ms} (thorough: also every pair of points inside pkg/rpc) is executed; same oracle",
             "assumptions": ["with PushInterval 0 (documented: pushes disabled) convergence is only demanded after a final client-issued mutation", "client-issued mutations of states the network machine does not know are skipped (documented panic)", "hold keeps the bytes of the server->client direction back (a stalled link), cut closes both directions (a dropped connection); no byte is ever lost or reordered inside a live link", "part 2 delays stay below the default handler timeout (100ms): a longer stall inside a handler is a handler timeout, not this property's subject", "pipe mutations issued while the connection is down are lost by design of the pipes (not generated)", "goroutine scheduling inside a bubble is the Go scheduler's (GOMAXPROCS=1) except for the enumerated delays; verdicts that do not reproduce on an immediate re-run are counted (irreproducible) and not reported"],
         },
     },
